@@ -60,6 +60,36 @@ SCENARIOS = [
 ]
 
 
+def gen_scenarios(thorough):
+    """Enumerated family: every source of <= 2/3 words over {A,B,C} (up to renaming), every prior output of
+    <= 2/3 letters over {A,B,C,X} (and none), seeds {none, B, CA}; the output is updated in place when it
+    exists. Hash length 64 / 4 and a 2-byte tail alternate with the scenario number."""
+    import itertools
+    n = 3 if thorough else 2
+    letters = "ABCX" if thorough else "ABX"
+    srcs = []
+    for ln in range(1, n + 1):
+        for t in itertools.product("ABC", repeat=ln):
+            first = []
+            for ch in t:
+                if ch not in first:
+                    first.append(ch)
+            if first == sorted(first) and first[0] == "A" and all(ord(b) - ord(a) == 1 for a, b in zip(first, first[1:])):
+                srcs.append("".join(t))
+    priors = [None] + ["".join(t) for ln in range(0, n + 1) for t in itertools.product(letters, repeat=ln)]
+    seeds = [None, "B", "CA"] if thorough else [None, "B"]
+    out = []
+    i = 0
+    for s_, p_, e_ in itertools.product(srcs, priors, seeds):
+        w = lambda x: b"".join(ch.encode() * 4 for ch in x)
+        source = w(s_) + (b"EE" if i % 3 == 0 else b"")
+        cargs = ["--fixed-size", "4B", "--compression", "none"] + (["--hash-length", "4"] if i % 2 else [])
+        flags = [] if p_ is None else ["--seed-output"]
+        out.append((f"gen:{s_}/{p_}/{e_}/{i % 6}", cargs, source, None if p_ is None else w(p_), None if e_ is None else w(e_), flags))
+        i += 1
+    return out
+
+
 class Dev:
     """A loop device of 4 KiB (or None when unavailable)."""
 
@@ -123,7 +153,7 @@ def run(ctx):
 
     def one_scenario(idx_kind):
         idx, kind = idx_kind
-        name, cargs, source, prior, seed, flags = SCENARIOS[idx]
+        name, cargs, source, prior, seed, flags = ALL[idx]
         d = os.path.join(root, f"s{idx}-{kind}")
         os.makedirs(d)
         srcp, arc, seedp = os.path.join(d, "src.bin"), os.path.join(d, "a.cba"), os.path.join(d, "seed.bin")
@@ -230,6 +260,9 @@ def run(ctx):
             if dev:
                 dev.close()
 
+    generated = gen_scenarios(thorough)
+    ALL = SCENARIOS + generated
+    cov["generated_scenarios"] = len(generated)
     kinds = ["file"]
     try:
         probe = Dev(root, "probe")
@@ -239,13 +272,15 @@ def run(ctx):
         cov["block_device"] = "unavailable: loop devices cannot be created here; block kind skipped"
     cov["output_kinds"] = kinds
     jobs = [(i, k) for i in range(len(SCENARIOS)) for k in kinds if not (k == "block" and len(SCENARIOS[i][2]) > 4096)]
+    jobs += [(len(SCENARIOS) + i, "file") for i in range(len(generated))]
     try:
-        with ThreadPoolExecutor(max_workers=8) as ex:
+        with ThreadPoolExecutor(max_workers=16) as ex:
             for local, name, kind, sizes in ex.map(one_scenario, jobs):
                 for k, v in local.items():
                     cov[k] += v
                 cov["scenarios"] += 1
-                cov["writes_per_scenario"][f"{name}/{kind}"] = sizes
+                if not name.startswith("gen:"):
+                    cov["writes_per_scenario"][f"{name}/{kind}"] = sizes
                 if len(samples) < 4 and sizes:
                     samples.append({"scenario": name, "output_kind": kind, "write_sizes": sizes,
                                     "faults": "k-th write: EIO | ENOSPC | short+EIO | torn after t bytes + _exit, for every k"})
@@ -258,7 +293,9 @@ def run(ctx):
     cov["rule"] = ("real binary under LD_PRELOAD: every write index k of the uninterrupted run x {EIO, ENOSPC, short then EIO} must "
                    "give exit != 0; every k x tear offsets {0,1,len/2,len-1,len} (thorough: every offset) kills the process mid-write and "
                    "the in-place re-run must restore the source; scenarios plain / seeded / in-place with moves / in-place swap / "
-                   "in-place permutation / rotation only (the last write is a move) / forced over existing / brotli / 3 MiB chunks with one needed twice, on a regular file and a loop block device; non-trivial = distinct injected cases")
+                   "in-place permutation / rotation only (the last write is a move) / forced over existing / brotli / 3 MiB chunks with one needed twice, on a regular file and a loop block device; "
+                   "plus the ENUMERATED family on regular files: every source of <= 2 (quick) / 3 (thorough) words up to renaming x every prior output of <= 2 / 3 letters over source words and junk (or none) x seeds {none, B, CA}, "
+                   "hash length 64 / 4 and a short tail alternating - each with every write index x every fault / tear as above; non-trivial = distinct injected cases")
     return {"property_id": ctx["pid"], "level": "fault_enumeration", "coverage": cov,
             "assumptions": ["the shim intercepts write(2) through the PLT; bita's output writes all go through std::fs::File::write on the blocking pool"],
             "violation_classes": list(viol.values()), "wall_s": time.time() - t0}
